@@ -56,7 +56,7 @@ Again == <<   \* a container printed, changed, printed again: the second text sh
   [t |-> << SVar("o", Obj(<<"k">>, <<Num(1)>>)), SVar("p", Obj(<<"k">>, <<Num(2)>>)), SPrint(Id("o")), SPrint(Id("p")), SPrint(Id("o")), SExpr(Call(Id("delkey"), <<Id("p"), Str("k")>>)), SExpr(PAsg(Id("p"), "m", Num(3))),
             SPrint(Id("p")), SPrint(Id("o")), SVar("q", Obj(<<"m">>, <<Num(9)>>)), SPrint(Id("q")) >>, c |-> "again", key |-> "again:two-objects-same-size"] >>
 Cases == SetToSeq({ [t |-> Prog1(v[3], IsPlainStr(v), v[2] \notin {"nil", "bool"}), c |-> v[2], key |-> "print:" \o v[1]] : v \in Values }) \o Again
-Programs == [i \in 1..Len(Cases) |-> LayoutProg(Cases[i].t, 1)]
+Programs == TLCEval([i \in 1..Len(Cases) |-> LayoutProg(Cases[i].t, 1)])
 FamProgOf(i) == Programs[i]
 Init == \E i \in 1..Len(Programs) : InitSem(i, <<>>, FALSE)
 Next == SemNext
